@@ -314,6 +314,10 @@ func runC04(c *Ctx) {
 	forkWanted := g.Chance(6)
 	if forkWanted {
 		nBranch = 3 + g.Draw(3)
+	} else if g.Chance(12) {
+		// a wide tee: more accepting cores than any inline storage for a handful holds
+		nBranch = 5 + g.Draw(6)
+		r.Probe("tee of 5-10 branches")
 	}
 	table := map[string]func(u *url.URL) (zap.Sink, error){}
 	useSimScheme(table)
